@@ -129,6 +129,12 @@ func GenC01(rng *kernel.RNG, env *kernel.Env, k int) any {
 	o := sizeClass(rng, env, k)
 	o.MaxTx = 8
 	p.Recipe = GenRecipe(rng, o)
+	if k%3 == 1 {
+		// two branches off one block deploy code of different length at the same address (same
+		// sender, same nonce) and each then reads that address's code size in a later block:
+		// whatever a node cached while importing one branch must not leak into the other
+		appendTwinDeployments(rng, &p.Recipe)
+	}
 	nn := rng.Range(2, 4)
 	var lists [][]Op
 	for i := 0; i < nn; i++ {
@@ -217,4 +223,20 @@ func genHeaderFirst(rng *kernel.RNG, r *Recipe, node int) []Op {
 		ops = append(ops, Op{Kind: "restart", Node: node})
 	}
 	return ops
+}
+
+// appendTwinDeployments adds, off the genesis block, two two-block branches: a creation
+// transaction of one sender (nonce 0 on both) deploying code of different lengths, followed by a
+// block whose transaction stores EXTCODESIZE of the created address.
+func appendTwinDeployments(rng *kernel.RNG, r *Recipe) {
+	s := rng.Intn(r.Accounts)
+	a1 := uint64(rng.Intn(5))
+	a2 := (a1 + 1 + uint64(rng.Intn(4))) % 5
+	for bi, a := range []uint64{a1, a2} {
+		base := len(r.Blocks)
+		r.Blocks = append(r.Blocks, BlockRecipe{Parent: 0, Gap: []int64{7000, 9000}[bi], Coinbase: rng.Intn(r.Accounts), Extra: "twin",
+			Txs: []TxRecipe{{From: s, Kind: TxCreateDirect, To: s, Price: 1_000_000_000, A: a}}})
+		r.Blocks = append(r.Blocks, BlockRecipe{Parent: base + 1, Gap: 1000, Coinbase: rng.Intn(r.Accounts),
+			Txs: []TxRecipe{{From: (s + 1) % r.Accounts, Kind: TxExtSize, To: s, Price: 1_000_000_000, B: 0}}})
+	}
 }
